@@ -2,6 +2,8 @@ package main
 
 import (
 	"fmt"
+	"net"
+	"net/http"
 	"os"
 	"path/filepath"
 	"strings"
@@ -402,6 +404,7 @@ func c15(c *h.Ctx) {
 	c.Extra("file_cases", len(cases))
 	root := caseDir(c, "c15")
 	defer os.RemoveAll(root)
+	c15urls(c)
 	h.Par(len(cases), 16, func(i int) {
 		fc := cases[i]
 		dir := filepath.Join(root, fmt.Sprint(i))
@@ -453,9 +456,64 @@ func c15(c *h.Ctx) {
 		} else {
 			c.Count("files_rejected", 1)
 		}
+		if fc.ext == ".yaml" && (strings.Contains(fc.name, "import") || i%7 == 0) {
+			// the same file found by default-configuration discovery (no -c): a different path through the CLI
+			os.Remove(dir + "/taskctl.yaml")
+			h.WriteFile(dir+"/tasks.yaml", fc.content)
+			run("list")
+			run("show", "t1")
+		}
 		if i%997 == 0 {
 			c.Sample(map[string]interface{}{"mutation": fc.name, "format": fc.ext, "exit": res.Exit, "stderr": clip(stripANSI(string(res.Stderr)), 200)})
 		}
+	})
+}
+
+// c15urls: configurations fetched from a loop-back HTTP server, with import entries of every shape.
+func c15urls(c *h.Ctx) {
+	ln, err := net.Listen("tcp", "127.0.0.1:0")
+	if err != nil {
+		c.Count("no_loopback_listener", 1)
+		return
+	}
+	defer ln.Close()
+	bodies := map[string]string{
+		"/ok.yaml": "tasks: {u: {command: [\"true\"]}}\n",
+		"/rel.yaml": "import: [\"ok.yaml\"]\ntasks: {r: {command: [\"true\"]}}\n",
+		"/percent.yaml": "import: [\"100%.yaml\"]\n", "/colon.yaml": "import: [\":more.yaml\"]\n", "/tab.yaml": "import: [\"a\\tb.yaml\"]\n",
+		"/space.yaml": "import: [\"a b.yaml\", \"%zz\"]\n", "/abs.yaml": "import: [\"/etc/hostname\"]\n", "/url.yaml": "import: [\"http://127.0.0.1:1/none.yaml\"]\n",
+		"/self.yaml": "import: [\"self.yaml\"]\ntasks: {s: {command: [\"true\"]}}\n", "/dir.yaml": "import: [\".\", \"..\", \"\"]\n",
+		"/badjson.json": "{\"import\": [\"x\", 1]", "/empty.yaml": "", "/notfound-import.yaml": "import: [\"nope/none.yaml\"]\n",
+	}
+	go http.Serve(ln, http.HandlerFunc(func(w http.ResponseWriter, r *http.Request) {
+		if b, ok := bodies[r.URL.Path]; ok {
+			w.Write([]byte(b))
+			return
+		}
+		http.NotFound(w, r)
+	}))
+	base := "http://" + ln.Addr().String()
+	dir := caseDir(c, "c15url")
+	defer os.RemoveAll(dir)
+	var paths []string
+	for p := range bodies {
+		paths = append(paths, p)
+	}
+	paths = append(paths, "/missing.yaml")
+	h.Par(len(paths), 8, func(i int) {
+		for _, args := range [][]string{{"list"}, {"show", "u"}} {
+			res := tc{Dir: dir, Timeout: 15 * time.Second}.run(c, append([]string{"-c", base + paths[i]}, args...)...)
+			c.Eval(1)
+			c.Count("url_configurations", 1)
+			cas := map[string]interface{}{"url_path": paths[i], "body": bodies[paths[i]], "argv": args, "exit": res.Exit, "stderr": tail(string(res.Stderr), 3000)}
+			if crashed, how := res.Crashed(); crashed {
+				c.Violate("crash/"+h.TopFrame(string(res.Stderr)), fmt.Sprintf("%s while loading a configuration from a URL (%s): %s", how, paths[i], firstPanicLine(string(res.Stderr))), cas)
+			}
+			if res.TimedOut {
+				c.Inconclusive("URL configuration " + paths[i] + " exceeded 15 s")
+			}
+		}
+		c.Nontrivial("url" + paths[i])
 	})
 }
 
